@@ -4,7 +4,7 @@
    with the random draws, is_hit answers and the individuals returned by the GSOM nodes as oracle arguments of select) takes the
    freshly constructed population p0 (Greedy, Elitism or Rosomaxa with a configuration its constructor accepts) to p without a
    panic; `offered ops` = every individual passed to add or add_all; `total_preorder cmp` = what total_order promises. *)
-From VRP Require Import Base.Tac Model.Population Proofs.PopulationP.
+From VRP Require Import Base.Tac Model.Population Proofs.PopulationP Model.EvoConfig Proofs.EvoConfigP.
 From Coq Require Import Sorted.
 
 (* clause 1, all three populations (greedy, elitist, self-organising): the first ranked individual is no worse than what the
@@ -239,3 +239,252 @@ Theorem C08_rosomaxa_stored_is_offered :
          (l : list ind),
   start_state p0 -> run cmp dedup ops p0 = Some p -> stored p = Some l -> l = offered ops.
 Proof. exact @stored_is_offered. Qed.
+
+
+(* ===================== the configuration side of the last clause (Model/EvoConfig.v) =====================
+   Reading guide: `apply_all calls default_builder` = the EvolutionConfigBuilder after the setter calls `calls` (ANY order, any number of
+   repetitions); `build` = EvolutionConfigBuilder::build; `sim_new` = EvolutionSimulator::new; `evolve` = EvolutionSimulator::run for the
+   built-in Iterative strategy; `solve_with calls ..` = all of it (None: a constructor returned Err; OCustom: a user strategy ran).
+   Oracle arguments of a run, all universally quantified: clock (time-based criteria), created (what the initial operators returned), gens
+   (per generation: selection oracles, offspring, statistics), pre / post (the processing hooks). *)
+
+(* which seeds a builder holds depends only on the LAST with_init_solutions call: nothing before it and no other setter after it
+   (with_initial in particular) changes them *)
+Theorem C08_builder_seeds_are_last_init_solutions :
+  forall (ind : Type) (b : builder ind) (pre_calls : list (setter ind)) (seeds : list ind) (max_init_size : option nat)
+         (post_calls : list (setter ind)),
+  (forall s, In s post_calls -> is_init_solutions s = false) ->
+  i_inds (b_initial (apply_all (pre_calls ++ WithInitSolutions seeds max_init_size :: post_calls) b)) = seeds.
+Proof. exact @seeds_last. Qed.
+
+(* no with_init_solutions call at all: a default builder holds no seeds *)
+Theorem C08_builder_no_seeds_without_init_solutions :
+  forall (ind : Type) (calls : list (setter ind)),
+  (forall s, In s calls -> is_init_solutions s = false) -> i_inds (b_initial (apply_all calls default_builder)) = [].
+Proof. exact @seeds_none. Qed.
+
+(* with_init_solutions(seeds, None) commutes with every other setter: wherever it stands in the sequence, the builder is the same *)
+Theorem C08_builder_init_solutions_position_immaterial :
+  forall (ind : Type) (b : builder ind) (pre_calls post_calls : list (setter ind)) (seeds : list ind),
+  (forall s, In s post_calls -> is_init_solutions s = false) ->
+  apply_all (pre_calls ++ WithInitSolutions seeds None :: post_calls) b =
+  apply_all (pre_calls ++ post_calls ++ [WithInitSolutions seeds None]) b.
+Proof. exact @seeds_position_immaterial. Qed.
+
+(* initial.max_size: the last of with_initial(max_size, ..) / with_init_solutions(.., Some(max_size)) decides, 4 when there is none *)
+Theorem C08_builder_max_size_is_last_set :
+  forall (ind : Type) (b : builder ind) (pre_calls : list (setter ind)) (s : setter ind) (m : nat) (post_calls : list (setter ind)),
+  sets_max s = Some m -> (forall s', In s' post_calls -> sets_max s' = None) ->
+  i_max (b_initial (apply_all (pre_calls ++ s :: post_calls) b)) = m.
+Proof. exact @max_last. Qed.
+Theorem C08_builder_max_size_default :
+  forall (ind : Type) (calls : list (setter ind)),
+  (forall s, In s calls -> sets_max s = None) -> i_max (b_initial (apply_all calls default_builder)) = 4%nat.
+Proof. exact @max_default. Qed.
+
+(* operators and quota: the last with_initial decides; the heuristic context: the last with_context *)
+Theorem C08_builder_operators_are_last_with_initial :
+  forall (ind : Type) (b : builder ind) (pre_calls : list (setter ind)) (m : nat) (q : Z) (o : operators) (post_calls : list (setter ind)),
+  (forall s, In s post_calls -> is_with_initial s = false) ->
+  i_ops (b_initial (apply_all (pre_calls ++ WithInitial m q o :: post_calls) b)) = o /\
+  i_quota (b_initial (apply_all (pre_calls ++ WithInitial m q o :: post_calls) b)) = q.
+Proof. exact @ops_last. Qed.
+Theorem C08_builder_context_is_last_with_context :
+  forall (ind : Type) (b : builder ind) (pre_calls : list (setter ind)) (c : context ind) (post_calls : list (setter ind)),
+  (forall s, In s post_calls -> is_with_context s = false) ->
+  b_context (apply_all (pre_calls ++ WithContext c :: post_calls) b) = Some c.
+Proof. exact @context_last. Qed.
+
+(* build: succeeds exactly when a context was set, the variation interval type (if any) is known, and a strategy, a heuristic or both
+   operator sets were given; the built configuration carries the builder's `initial` (seeds included), processing and context unchanged *)
+Theorem C08_config_build_succeeds_iff :
+  forall (ind : Type) (b : builder ind),
+  (exists c, build b = inl c) <->
+  (b_context b <> None /\ interval_known b /\
+   (b_strategy b <> None \/ b_heuristic b <> None \/ (b_search b <> None /\ b_diversify b <> None))).
+Proof. exact @build_ok_iff. Qed.
+Theorem C08_config_build_keeps_initial :
+  forall (ind : Type) (b : builder ind) (c : config ind), build b = inl c ->
+  cfg_initial c = b_initial b /\ cfg_processing c = b_processing b /\ b_context b = Some (cfg_context c).
+Proof. exact @build_fields. Qed.
+
+(* the run offers the first max_size seeds to the population of the configured context before anything else ... *)
+Theorem C08_config_seeds_offered_first :
+  forall (ind : Type) (calls pre_calls post_calls : list (setter ind)) (seeds : list ind) (max_init_size : option nat) (c : config ind),
+  calls = pre_calls ++ WithInitSolutions seeds max_init_size :: post_calls ->
+  (forall s, In s post_calls -> is_init_solutions s = false) ->
+  build (apply_all calls default_builder) = inl c ->
+  seeds_offered c = firstn (i_max (b_initial (apply_all calls default_builder))) seeds /\
+  forall clock created gens, exists rest, evolve_ops c clock created gens = map OAdd (seeds_offered c) ++ rest.
+Proof. exact @builder_seeds_offered_first. Qed.
+
+(* ... the initial stage never offers more than max_size individuals, operator slot idx < operators.len() goes to operator idx, and with
+   only a generation limit > 0 and a non-negative quota the stage fills the population up to max_size *)
+Theorem C08_config_initial_stage_bounds :
+  forall (ind : Type) (c : config ind) (clock : list (bool * Z)) (created : list ind),
+  (length (init_offered c clock created) <= i_max (cfg_initial c))%nat /\
+  (forall k, In (Some k) (init_slots c clock) -> (k < length (i_ops (cfg_initial c)))%nat) /\
+  (has_other_criteria (cfg_termination c) = false -> maxgen_terminated0 (cfg_termination c) = false -> 0 <= i_quota (cfg_initial c) ->
+   length (init_slots c clock) = (i_max (cfg_initial c) - length (seeds_offered c))%nat) /\
+  (maxgen_terminated0 (cfg_termination c) = true -> init_slots c clock = []).
+Proof.
+  exact (fun ind c clock created =>
+    conj (@init_offered_length ind c clock created)
+   (conj (fun k H => @created_slots_valid ind c clock _ _ _ k H)
+   (conj (@init_slots_full ind c clock) (@init_slots_none ind c clock)))).
+Qed.
+
+(* THE LAST CLAUSE, from the configuration side, for ALL orders of setter calls: whatever sequence of setters is applied to a default
+   builder, if its last with_init_solutions call carried `seeds`, every context handed to with_context owns a freshly constructed
+   population (Greedy, Elitism or Rosomaxa), the context hooks keep that, the solution hooks do not worsen a solution, and the built-in
+   strategy ran — then the returned solution is no worse than each of the first max_size seeds (all seeds when there are at most
+   max_size of them), for every total preorder, every dedup predicate, every oracle. *)
+Theorem C08_builder_seeded_never_worse :
+  forall (ind : Type) (cmp : ind -> ind -> comparison) (dedup : ind -> ind -> bool), total_preorder cmp ->
+  forall (pre : Z -> context ind -> context ind) (post : Z -> ind -> ind),
+  (forall h c, start_state (snd c) -> start_state (snd (pre h c))) -> (forall h s, cmp (post h s) s <> Gt) ->
+  forall (calls pre_calls post_calls : list (setter ind)) (seeds : list ind) (max_init_size : option nat)
+         (clock : list (bool * Z)) (created : list ind) (gens : list generation) (r : list ind),
+  calls = pre_calls ++ WithInitSolutions seeds max_init_size :: post_calls ->
+  (forall s, In s post_calls -> is_init_solutions s = false) ->
+  (forall c, In (WithContext c) calls -> start_state (snd c)) ->
+  solve_with cmp dedup pre post calls clock created gens = Some (OResult r) ->
+  forall x, In x (firstn (i_max (b_initial (apply_all calls default_builder))) seeds) ->
+  exists b, hd_error r = Some b /\ cmp b x <> Gt.
+Proof. exact @builder_seeded_never_worse. Qed.
+Theorem C08_builder_all_seeds_never_worse :
+  forall (ind : Type) (cmp : ind -> ind -> comparison) (dedup : ind -> ind -> bool), total_preorder cmp ->
+  forall (pre : Z -> context ind -> context ind) (post : Z -> ind -> ind),
+  (forall h c, start_state (snd c) -> start_state (snd (pre h c))) -> (forall h s, cmp (post h s) s <> Gt) ->
+  forall (calls pre_calls post_calls : list (setter ind)) (seeds : list ind) (max_init_size : option nat)
+         (clock : list (bool * Z)) (created : list ind) (gens : list generation) (r : list ind),
+  calls = pre_calls ++ WithInitSolutions seeds max_init_size :: post_calls ->
+  (forall s, In s post_calls -> is_init_solutions s = false) ->
+  (forall c, In (WithContext c) calls -> start_state (snd c)) ->
+  (length seeds <= i_max (b_initial (apply_all calls default_builder)))%nat ->
+  solve_with cmp dedup pre post calls clock created gens = Some (OResult r) ->
+  forall x, In x seeds -> exists b, hd_error r = Some b /\ cmp b x <> Gt.
+Proof. exact @builder_all_seeds_never_worse. Qed.
+
+(* the run of ANY configuration whose context owns a freshly constructed population: the result is no worse than everything that
+   reached the population — seeds, operator-created individuals, every offspring *)
+Theorem C08_config_run_result_best :
+  forall (ind : Type) (cmp : ind -> ind -> comparison) (dedup : ind -> ind -> bool), total_preorder cmp ->
+  forall (pre : Z -> context ind -> context ind) (post : Z -> ind -> ind),
+  (forall h c, start_state (snd c) -> start_state (snd (pre h c))) -> (forall h s, cmp (post h s) s <> Gt) ->
+  forall (c : config ind) (clock : list (bool * Z)) (created : list ind) (gens : list generation) (r : list ind),
+  start_state (snd (cfg_context c)) ->
+  evolve cmp dedup pre post c clock created gens = OResult r ->
+  forall x, In x (init_offered c clock created) \/ (exists g, In g gens /\ In x (gen_offspring g)) ->
+  exists b, hd_error r = Some b /\ cmp b x <> Gt.
+Proof. exact @evolve_result_best. Qed.
+
+(* the run of a configuration never panics when the (pre-processed) context owns a freshly constructed population which, if it is a
+   Rosomaxa, has initial_size >= 4 (the default configuration has 16) *)
+Theorem C08_config_run_no_panic :
+  forall (ind : Type) (cmp : ind -> ind -> comparison) (dedup : ind -> ind -> bool)
+         (pre : Z -> context ind -> context ind) (post : Z -> ind -> ind) (c : config ind)
+         (clock : list (bool * Z)) (created : list ind) (gens : list generation),
+  start_state (snd (pre_process pre c)) -> panic_free (snd (pre_process pre c)) ->
+  evolve cmp dedup pre post c clock created gens <> OPanic.
+Proof. exact @evolve_no_panic. Qed.
+
+(* get_default_population: Greedy(1) for selection size 1, Rosomaxa with the default configuration otherwise; it panics (expect) exactly
+   for selection size 0; what it returns is a constructor state with that selection size (so every population theorem above applies,
+   selections are non-empty) and never panics in Network::new (initial_size 16) *)
+Theorem C08_default_population :
+  forall (ind : Type) (sel : nat),
+  (@default_population ind sel = None <-> sel = 0%nat) /\
+  (forall p : pop ind, default_population sel = Some p ->
+     start_state p /\ selection_size p = sel /\ (1 <= sel)%nat /\
+     (sel = 1%nat -> p = greedy_new 1 None) /\
+     (sel <> 1%nat -> exists r, p = PR r /\ r_cfg r = default_rconfig sel /\ r_phase r = PInitial [])) /\
+  (forall (cmp : ind -> ind -> comparison) (dedup : ind -> ind -> bool) (p : pop ind) (ops : list (op ind)),
+     default_population sel = Some p -> run cmp dedup ops p <> None).
+Proof.
+  exact (fun ind sel => conj (@default_population_none ind sel)
+                       (conj (@default_population_spec ind sel)
+                             (fun cmp dedup p ops => @default_population_no_panic ind cmp dedup sel p ops))).
+Qed.
+
+(* the two VRP front ends as setter sequences: vrp-cli's config-file path (create_builder_from_config: with_init_solutions BEFORE the
+   optional with_initial of evolution.initial) and its command line path keep the given solutions as seeds, whatever optional sections
+   the config file has *)
+Theorem C08_cli_config_path_keeps_seeds :
+  forall (ind : Type) (h : Z) (ctx : context ind) (ch sh : list Z) (ops : operators) (solutions : list ind)
+         (evo_initial : option (nat * Z * operators)) (evo_population : option (context ind)) (hyper : option Z)
+         (termination : option (option nat * option nat * option Z)),
+  let b := apply_all (cli_config_calls h ctx ch sh ops solutions evo_initial evo_population hyper termination) default_builder in
+  i_inds (b_initial b) = solutions /\
+  i_max (b_initial b) = match evo_initial with Some (m, _, _) => m | None => 4%nat end /\
+  i_ops (b_initial b) = match evo_initial with Some (_, _, o) => o | None => ops end /\
+  b_context b = Some (match evo_population with Some c => c | None => ctx end).
+Proof. exact @cli_config_initial. Qed.
+Theorem C08_cli_args_path_keeps_seeds :
+  forall (ind : Type) (h : Z) (ctx : context ind) (ch sh : list Z) (ops : operators) (solutions : list ind) (init_size : option nat)
+         (g t : option nat) (cv : option Z) (ctx' : context ind),
+  let b := apply_all (cli_args_calls h ctx ch sh ops solutions init_size g t cv ctx') default_builder in
+  i_inds (b_initial b) = solutions /\
+  i_max (b_initial b) = match init_size with Some m => m | None => 4%nat end /\
+  i_ops (b_initial b) = ops /\ b_context b = Some ctx'.
+Proof. exact @cli_args_initial. Qed.
+
+(* non-vacuity: both orders of the pair with_init_solutions / with_initial over an Elitism population — a configuration is built, the
+   seeds 1 and 2 are offered first, two operator-created individuals follow, three generations run, and the seed with the best key is
+   returned;  and max_size really cuts: with_init_solutions(S, Some 1) offers only the first seed *)
+Theorem C08_nonvacuous_builder :
+  forall first_seeds : bool,
+  let a := ZInitSolutions [ZI 1 3 0 10; ZI 2 9 0 30] None in
+  let b := ZInitial 4 50 [(10, 1)] in
+  run_builder ([ZHeuristic 20; ZContext 70 (ZPElitism 4 2)] ++ (if first_seeds then [a; b] else [b; a]) ++ [ZMaxGen (Some 2)])
+              [] [ZI 11 20 0 50; ZI 12 22 0 70; ZI 13 24 0 90] [[ZI 21 15 0 55]; []; []] =
+  (0, 70, [(0, 2)], (1, 20), 4, ([], []), [1; 2], [-1; -1],
+   [(0, [1]); (0, [2]); (0, [11]); (0, [12]); (3, []); (1, [21]); (2, []); (3, []); (1, []); (2, []); (3, []); (1, []); (2, []); (4, [])],
+   [1], false, (2, 4, [1; 1])).
+Proof. exact builder_nonvacuous. Qed.
+Theorem C08_builder_max_size_cuts_seeds :
+  run_builder [ZHeuristic 20; ZContext 70 (ZPGreedy 1); ZInitial 4 50 [(10, 1)]; ZInitSolutions [ZI 1 9 0 10; ZI 2 3 0 30] (Some 1);
+               ZMaxGen (Some 0)] [] [] [] =
+  (0, 70, [(0, 0)], (1, 20), 1, ([], []), [1], [], [(0, [1]); (4, [])], [1], false, (2, 1, [1])).
+Proof. exact builder_max_size_cuts_seeds. Qed.
+
+(* ===================== further depth on the populations ===================== *)
+
+(* the ranking depends on the offering operations only: two histories from the same population whose add / add_all operations agree
+   (in order) end with the same ranking, whatever generation ticks (statistics: speed, termination estimate) and selections (random
+   draws, is_hit answers, network answers) are interleaved and wherever — in particular the ranking of Rosomaxa does not depend on its
+   phase or its network *)
+Theorem C08_ranked_depends_on_offers_only :
+  forall (ind : Type) (cmp : ind -> ind -> comparison) (dedup : ind -> ind -> bool) (ops1 ops2 : list (op ind)) (p0 p1 p2 : pop ind),
+  offers ops1 = offers ops2 -> run cmp dedup ops1 p0 = Some p1 -> run cmp dedup ops2 p0 = Some p2 -> ranked p1 = ranked p2.
+Proof. exact @ranked_depends_on_offers. Qed.
+
+(* the bool returned by add / add_all (Greedy: the best was replaced; Elitism / Rosomaxa's elite: is_improved): exactly the offering
+   operations return one; whenever the operation makes the first ranked individual strictly better or fills an empty population it
+   returns true; when it returns false the first ranked individual is the old one or one of the same fitness.
+   Hypothesis: the order is a function of the fitness (fit_differs a b = false -> cmp a b = Eq). *)
+Theorem C08_add_returns_true_on_improvement :
+  forall (ind : Type) (cmp : ind -> ind -> comparison) (dedup : ind -> ind -> bool) (fit_differs : ind -> ind -> bool),
+  total_preorder cmp -> (forall a b, fit_differs a b = false -> cmp a b = Eq) ->
+  forall (p : pop ind) (o : op ind) (p' : pop ind), step cmp dedup p o = Some p' -> is_offer o = true ->
+  match hd_error (ranked p), hd_error (ranked p') with
+  | Some b, Some b' => cmp b' b = Lt -> step_ret cmp dedup fit_differs p o = Some true
+  | None, Some _ => step_ret cmp dedup fit_differs p o = Some true
+  | _, _ => True
+  end.
+Proof. exact @step_ret_true_on_improvement. Qed.
+Theorem C08_add_returns_false_keeps_best_fitness :
+  forall (ind : Type) (cmp : ind -> ind -> comparison) (dedup : ind -> ind -> bool) (fit_differs : ind -> ind -> bool)
+         (p : pop ind) (o : op ind) (p' : pop ind),
+  step cmp dedup p o = Some p' -> step_ret cmp dedup fit_differs p o = Some false ->
+  hd_error (ranked p') = hd_error (ranked p) \/
+  exists b b', hd_error (ranked p) = Some b /\ hd_error (ranked p') = Some b' /\ fit_differs b b' = false.
+Proof. exact @step_ret_false. Qed.
+Theorem C08_add_returns_bool_iff_offer :
+  forall (ind : Type) (cmp : ind -> ind -> comparison) (dedup : ind -> ind -> bool) (fit_differs : ind -> ind -> bool)
+         (p : pop ind) (o : op ind),
+  (exists b, step_ret cmp dedup fit_differs p o = Some b) <-> is_offer o = true.
+Proof. exact @step_ret_some. Qed.
+(* non-vacuity of the fitness hypothesis: the integer-keyed individuals of the correspondence (fitness [key] or [key, tag]) *)
+Theorem C08_nonvacuous_fitness_order : forall (two : bool) (a b : zi), zfit_differs two a b = false -> zcmp a b = Eq.
+Proof. exact zfit_differs_order. Qed.
